@@ -1,6 +1,215 @@
-From Coq Require Import List NArith Bool.
+(* Diag/Proofs.v -- proofs about the generic part of analyze_compiler_output (G1-G3). *)
+From Coq Require Import List NArith Bool Lia Arith.
 Import ListNotations.
-From Heph Require Import Diag.Regex Diag.Analyze.
+From Heph Require Import Diag.Regex Diag.Analyze Diag.Grammar.
 
 Lemma analyze_crash_lem : forall c fl out mt, search (crash_re c) out = Some mt -> analyze c fl out = Crash.
 Proof. intros c fl out mt H. unfold analyze. rewrite H. reflexivity. Qed.
+
+(* ------------------------------------------------------------------ G1 *)
+Lemma analyze_crash_iff_lem : forall c fl out,
+  analyze c fl out = Crash <->
+  (search (crash_re c) out <> None \/
+   (exists so, so_re c = Some so /\ search so out <> None /\
+               findall (err_re c) (fold_left (fun acc p => sub_empty p acc) fl out) = [])).
+Proof.
+  intros c fl out. unfold analyze. split.
+  - destruct (search (crash_re c) out) eqn:Hc.
+    + intros _. left. discriminate.
+    + destruct (so_re c) as [so|] eqn:Hso.
+      * destruct (search so out) eqn:Hs.
+        -- destruct (findall (err_re c) (fold_left (fun acc p => sub_empty p acc) fl out)) eqn:Hf.
+           ++ intros _. right. exists so. repeat split; congruence.
+           ++ discriminate.
+        -- discriminate.
+      * discriminate.
+  - intros [H | [so [Hso [Hs Hf]]]].
+    + destruct (search (crash_re c) out); [reflexivity | congruence].
+    + destruct (search (crash_re c) out); [reflexivity |].
+      rewrite Hso. destruct (search so out); [| congruence].
+      rewrite Hf. reflexivity.
+Qed.
+
+(* ------------------------------------------------------------------ G2 *)
+Lemma analyze_diag_is_findall_lem : forall c fl out f ms,
+  analyze c fl out = Diag f ms ->
+  let filtered := fold_left (fun acc p => sub_empty p acc) fl out in
+  ms = map (groups_of (ngroups c) filtered) (findall (err_re c) filtered) /\
+  f = fold_left (fun f mt => failed_add f (group filtered mt 1) (group filtered mt 2))
+                (findall (err_re c) filtered) [].
+Proof.
+  intros c fl out f ms. unfold analyze.
+  destruct (search (crash_re c) out); [discriminate |].
+  destruct (so_re c) as [so|].
+  - destruct (search so out).
+    + destruct (findall (err_re c) (fold_left (fun acc p => sub_empty p acc) fl out)) eqn:Hf.
+      * discriminate.
+      * intros H. injection H as H1 H2. cbv zeta. subst. split; reflexivity.
+    + intros H. injection H as H1 H2. cbv zeta. split; congruence.
+  - intros H. injection H as H1 H2. cbv zeta. split; congruence.
+Qed.
+
+(* ------------------------------------------------------------------ G3 *)
+Lemma chs_eqb_eq : forall a b, chs_eqb a b = true <-> a = b.
+Proof.
+  induction a as [|x a IH]; destruct b as [|y b]; simpl; split; intros H; try congruence.
+  - apply andb_true_iff in H. destruct H as [H1 H2]. apply N.eqb_eq in H1. apply IH in H2. congruence.
+  - injection H as -> ->. rewrite N.eqb_refl. simpl. apply IH. reflexivity.
+Qed.
+
+Lemma chs_eqb_refl : forall a, chs_eqb a a = true.
+Proof. intros a. apply chs_eqb_eq. reflexivity. Qed.
+
+(* pairwise distinctness of the keys of the failed map, w.r.t. the comparison the model uses *)
+Fixpoint keys_distinct (ks : list (list ch)) : bool :=
+  match ks with
+  | [] => true
+  | k :: ks' => negb (existsb (chs_eqb k) ks') && keys_distinct ks'
+  end.
+
+Lemma failed_add_keys : forall f file msg k,
+  In k (map fst (failed_add f file msg)) <-> In k (map fst f) \/ k = file.
+Proof.
+  induction f as [|[k0 ms] f IH]; intros file msg k; simpl.
+  - intuition.
+  - destruct (chs_eqb k0 file) eqn:E; simpl.
+    + apply chs_eqb_eq in E. subst. intuition.
+    + rewrite IH. intuition.
+Qed.
+
+Lemma existsb_chs_In : forall k ks, existsb (chs_eqb k) ks = true <-> In k ks.
+Proof.
+  intros k ks. rewrite existsb_exists. split.
+  - intros [x [Hin E]]. apply chs_eqb_eq in E. subst. exact Hin.
+  - intros Hin. exists k. split; [exact Hin | apply chs_eqb_refl].
+Qed.
+
+Lemma failed_add_distinct : forall f file msg,
+  keys_distinct (map fst f) = true -> keys_distinct (map fst (failed_add f file msg)) = true.
+Proof.
+  induction f as [|[k0 ms] f IH]; intros file msg H; simpl.
+  - reflexivity.
+  - simpl in H. apply andb_true_iff in H. destruct H as [H1 H2].
+    destruct (chs_eqb k0 file) eqn:E; simpl.
+    + rewrite H1, H2. reflexivity.
+    + rewrite IH by exact H2. rewrite andb_true_r.
+      apply negb_true_iff. apply negb_true_iff in H1.
+      apply not_true_iff_false. intros Hc. apply existsb_chs_In in Hc.
+      apply failed_add_keys in Hc. destruct Hc as [Hc | Hc].
+      * apply existsb_chs_In in Hc. congruence.
+      * subst. rewrite chs_eqb_refl in E. discriminate.
+Qed.
+
+Lemma failed_add_count : forall f file msg,
+  List.length (flat_map snd (failed_add f file msg)) = S (List.length (flat_map snd f)).
+Proof.
+  induction f as [|[k0 ms] f IH]; intros file msg; simpl.
+  - reflexivity.
+  - destruct (chs_eqb k0 file); simpl.
+    + rewrite !app_length. simpl. lia.
+    + rewrite !app_length, IH. lia.
+Qed.
+
+Lemma group_fold_inv : forall es f0,
+  keys_distinct (map fst f0) = true ->
+  let f := fold_left (fun f e => failed_add f (fst e) (snd e)) es f0 in
+  keys_distinct (map fst f) = true /\
+  (forall k, In k (map fst f) <-> In k (map fst f0) \/ In k (map fst es)) /\
+  List.length (flat_map snd f) = (List.length (flat_map snd f0) + List.length es)%nat.
+Proof.
+  induction es as [|e es IH]; intros f0 H0; simpl.
+  - split; [exact H0 |]. split; [intuition | lia].
+  - specialize (IH (failed_add f0 (fst e) (snd e)) (failed_add_distinct _ _ _ H0)).
+    cbv zeta in IH. destruct IH as [I1 [I2 I3]].
+    split; [exact I1 |]. split.
+    + intros k. rewrite I2, failed_add_keys. intuition.
+    + rewrite I3, failed_add_count. lia.
+Qed.
+
+Lemma failed_add_groups_lem : forall es,
+  let f := group_by_file es in
+  keys_distinct (map fst f) = true /\
+  (forall file, In file (map fst es) <-> exists k, In k (map fst f) /\ chs_eqb k file = true) /\
+  List.length (flat_map snd f) = List.length es.
+Proof.
+  intros es. cbv zeta. unfold group_by_file.
+  destruct (group_fold_inv es [] eq_refl) as [I1 [I2 I3]].
+  split; [exact I1 |]. split; [| exact I3].
+  intros file. split.
+  - intros Hin. exists file. split; [apply I2; right; exact Hin | apply chs_eqb_refl].
+  - intros [k [Hin E]]. apply chs_eqb_eq in E. subst. apply I2 in Hin.
+    destruct Hin as [[] | Hin]. exact Hin.
+Qed.
+
+(* stronger content statement: the messages recorded for a key are exactly the messages of
+   the diagnostics for that file, in order *)
+Definition msgs_for (k : list ch) (es : list (list ch * list ch)) : list (list ch) :=
+  map snd (filter (fun e => chs_eqb k (fst e)) es).
+
+Lemma failed_add_In : forall f file msg k ms,
+  keys_distinct (map fst f) = true ->
+  In (k, ms) (failed_add f file msg) ->
+  (k <> file /\ In (k, ms) f) \/
+  (k = file /\ ((exists ms0, In (k, ms0) f /\ ms = ms0 ++ [msg]) \/
+                (~ In k (map fst f) /\ ms = [msg]))).
+Proof.
+  induction f as [|[k0 ms0] f IH]; intros file msg k ms Hd Hin; simpl in *.
+  - destruct Hin as [Hin | []]. injection Hin as <- <-. right. split; [reflexivity |]. right. intuition.
+  - apply andb_true_iff in Hd. destruct Hd as [Hd1 Hd2].
+    destruct (chs_eqb k0 file) eqn:E.
+    + apply chs_eqb_eq in E. subst k0. destruct Hin as [Hin | Hin].
+      * injection Hin as <- <-. right. split; [reflexivity |]. left. exists ms0. intuition.
+      * left. split; [| right; exact Hin].
+        intros ->. apply negb_true_iff in Hd1.
+        assert (existsb (chs_eqb file) (map fst f) = true); [| congruence].
+        apply existsb_chs_In. apply in_map_iff. exists (file, ms). intuition.
+    + destruct Hin as [Hin | Hin].
+      * injection Hin as <- <-. left. split; [| left; reflexivity].
+        intros ->. rewrite chs_eqb_refl in E. discriminate.
+      * destruct (IH file msg k ms Hd2 Hin) as [[A B] | [A [[m1 [B C]] | [B C]]]].
+        -- left. intuition.
+        -- right. split; [exact A |]. left. exists m1. intuition.
+        -- right. split; [exact A |]. right. split; [| exact C].
+           intros [F | F]; [| exact (B F)]. subst. rewrite chs_eqb_refl in E. discriminate.
+Qed.
+
+Lemma msgs_for_app : forall k a b, msgs_for k (a ++ b) = msgs_for k a ++ msgs_for k b.
+Proof. intros. unfold msgs_for. rewrite filter_app, map_app. reflexivity. Qed.
+
+Lemma msgs_for_notin : forall k es, ~ In k (map fst es) -> msgs_for k es = [].
+Proof.
+  induction es as [|e es IH]; intros H; [reflexivity |].
+  unfold msgs_for. simpl. destruct (chs_eqb k (fst e)) eqn:E.
+  - apply chs_eqb_eq in E. exfalso. apply H. left. congruence.
+  - apply IH. intros F. apply H. right. exact F.
+Qed.
+
+Lemma group_by_file_snoc : forall es e,
+  group_by_file (es ++ [e]) = failed_add (group_by_file es) (fst e) (snd e).
+Proof. intros. unfold group_by_file. rewrite fold_left_app. reflexivity. Qed.
+
+Lemma group_by_file_content : forall es k ms,
+  In (k, ms) (group_by_file es) -> ms = msgs_for k es.
+Proof.
+  induction es as [|e es IH] using rev_ind; intros k ms Hin.
+  - destruct Hin.
+  - rewrite group_by_file_snoc in Hin.
+    destruct (failed_add_groups_lem es) as [Hd [Hk _]]. cbv zeta in Hd, Hk.
+    apply failed_add_In in Hin; [| exact Hd].
+    rewrite msgs_for_app. unfold msgs_for at 2. simpl.
+    destruct Hin as [[A B] | [A [[m1 [B C]] | [B C]]]].
+    + destruct (chs_eqb k (fst e)) eqn:E; [apply chs_eqb_eq in E; congruence |].
+      simpl. rewrite app_nil_r. apply IH. exact B.
+    + subst k. rewrite chs_eqb_refl. simpl. rewrite C. f_equal. apply IH. exact B.
+    + subst k. rewrite chs_eqb_refl. simpl. rewrite C.
+      rewrite msgs_for_notin; [reflexivity |].
+      intros F. apply B. apply Hk in F. destruct F as [k' [F1 F2]]. apply chs_eqb_eq in F2. congruence.
+Qed.
+
+(* analyze without user filters, for a compiler without the stack-overflow special case *)
+Lemma analyze_plain : forall c out,
+  so_re c = None -> search (crash_re c) out = None ->
+  analyze c [] out =
+  Diag (fold_left (fun f mt => failed_add f (group out mt 1) (group out mt 2)) (findall (err_re c) out) [])
+       (map (groups_of (ngroups c) out) (findall (err_re c) out)).
+Proof. intros c out Hso Hc. unfold analyze. rewrite Hc, Hso. reflexivity. Qed.
